@@ -47,10 +47,9 @@ theorem c02_mcb_weight_unique (g : Graph) (L L' : List (List Nat)) (h : IsMCB g 
     totalWeight g L = totalWeight g L' := by
   have := h.2 L' h'.1; have := h'.2 L h.1; omega
 
-/- `c02_sorted_weights_partial`: the second sentence of the property ("the sorted list of emitted cycle
-weights coincides with that of every minimum cycle basis") needs, beyond the injection of
-`Abstract.exchange_injection`, that two bases have the same number of elements (Steinitz).  Not proved
-here; the total (above) is, and the sorted lists are compared per run by the correspondence check. -/
+/- The second sentence of the property ("the sorted list of emitted cycle weights coincides with that of
+every minimum cycle basis") is `c02_sorted_weights` in Props/C02b.lean (it needs that two bases have the
+same number of elements: Lemmas/Steinitz.lean). -/
 
 /-- **what the trace validation establishes**: when the compiled driver accepts a run of the implementation
 (every phase: element of the cycle space, odd against the model's support vector, and a potential
